@@ -5,16 +5,29 @@
   (one field per family) and reset it on their own `case` header.
 -/
 import JrpcVerif.Driver.TextFamily
+import JrpcVerif.Driver.ParamsFamily
+import JrpcVerif.Driver.HostFilterFamily
+import JrpcVerif.Driver.ClientFamily
 open Jrpc Jrpc.Driver
 
 structure St where
   dummy : Nat := 0
   -- one field per stateful family, e.g.  reg : RegistrySt := {}
+  client : ClientSt := {}
 
 def step (st : St) (line : String) : St × String :=
   let ws := (line.trimAscii.toString.splitOn " ").filter (· ≠ "")
   match textVerb ws with
   | some out => (st, out)
+  | none =>
+  match paramsVerb ws with
+  | some out => (st, out)
+  | none =>
+  match hostFilterVerb ws with
+  | some out => (st, out)
+  | none =>
+  match clientVerb st.client ws with
+  | some (s', out) => ({ st with client := s' }, out)
   | none =>
   -- stateful families: add one arm each, e.g.
   --   match registryVerb st.reg ws with
